@@ -467,7 +467,26 @@ func main() {
 			}
 			return false
 		}
-		r.SpawnChildren(1, 1, nil, time.Duration(r.Pick(5, 20))*time.Minute)
+		var env []string
+		if rb := os.Getenv("VERIF_BIN") + ".race"; os.Getenv("VERIF_BIN") != "" {
+			if _, err := os.Stat(rb); err == nil {
+				// the store rounds run in the -race build: a report ends the child (exit code 66) and is attributed below
+				r.ChildBinary = rb
+				env = []string{"GORACE=halt_on_error=1 exitcode=66"}
+				r.Obs("store_rounds_run_under_the_race_detector", 1)
+			}
+		}
+		inner := r.OnChildFailure
+		r.OnChildFailure = func(progress, output string) bool {
+			if strings.Contains(output, "WARNING: DATA RACE") && strings.Contains(output, "cancel_functions.go") {
+				r.Violation(vrun.Sig{"ep": "CancelFunctionStore", "effect": "data-race"},
+					"the race detector reported a data race with a frame in cancel_functions.go under concurrent Register/Cancel/Len",
+					map[string]any{"last_round": progress, "race_report": trunc(output[strings.Index(output, "WARNING: DATA RACE"):], 3500), "deterministic": false})
+				return true
+			}
+			return inner(progress, output)
+		}
+		r.SpawnChildren(1, 1, env, time.Duration(r.Pick(5, 20))*time.Minute)
 	})
 	part("realtime", func() { rt.judgeStragglers(r) })
 
